@@ -40,4 +40,49 @@ def generate(h):
     t += "Definition c12_outputs : list (list N * N) :=\n  [ "
     t += ";\n    ".join("(%s, %d%%N) (* %s *)" % (h.coq_bytes(n.encode()), k or 0, n) for n, k in outs)
     t += " ].\n"
+    t += help_table(h, src)
+    return t
+
+
+FILTER_OPTS = ["-g", "-n", "-t", "-sg", "-sn", "-st", "-xg", "-xn", "-xt", "-xsg", "-xsn", "-xst", "TEST("]
+
+
+def help_table(h, src):
+    """The sentences of help() about the options that control which tests are run, as data:
+    (option literal, exclude?, exact?, subject) with subject SGroup | SName | SBothAnd ("group and name ... <g> and <n>")
+    | SEitherOr ("group ... <g> or whose name ... <n>")."""
+    t = "Inductive c12_subject := SGroup | SName | SBothAnd | SEitherOr.\n"
+    m = re.search(r"const char\* CommandLineArguments::help\(\) const\s*\{(.*?)\n\}\n", src, re.S)
+    if not m:
+        h.errors.append(P + ": body of CommandLineArguments::help not found")
+        return t
+    text = "".join(bytes(x, "latin1").decode("unicode_escape") for x in re.findall(r'"((?:[^"\\]|\\.)*)"', m.group(1)))
+    text = re.sub(r'\n\s+- ', " - ", text)                  # the TEST( form has its explanation on the next line
+    rel = r"(contains?|exactly match(?:es)?)"
+    rows = []
+    for line in text.split("\n"):
+        mm = re.match(r'\s*"?(?:\[IGNORE_\])?(-\w+|TEST\()[^-]*? - (only run|exclude) tests whose (.*)$', line)
+        if not mm:
+            continue
+        opt, verb, rest = mm.group(1), mm.group(2), mm.group(3).strip()
+        a = re.fullmatch(r"(group|name) %s <\w+>" % rel, rest)
+        b = re.fullmatch(r"group and name %s <\w+> and <\w+>" % rel, rest)
+        c = re.fullmatch(r"group %s <\w+> or whose name %s <\w+>" % (rel, rel), rest)
+        if a:
+            subj, r = ("SGroup" if a.group(1) == "group" else "SName"), a.group(2)
+        elif b:
+            subj, r = "SBothAnd", b.group(1)
+        elif c and c.group(1).startswith("exact") == c.group(2).startswith("exact"):
+            subj, r = "SEitherOr", c.group(1)
+        else:
+            h.errors.append(P + ": help sentence of %s not recognised: %r" % (opt, rest))
+            continue
+        rows.append((opt, verb == "exclude", r.startswith("exact"), subj))
+    got = [r[0] for r in rows]
+    if sorted(got) != sorted(FILTER_OPTS):
+        h.errors.append(P + ": help() sentences for the test-selection options not recognised (got %s)" % ",".join(got))
+    t += "(* %s: help(), what each test-selection option is documented to do: (option, (exclude, (exact, subject))) *)\n" % P
+    t += "Definition c12_help : list (list N * (bool * (bool * c12_subject))) :=\n  [ "
+    t += ";\n    ".join("(%s, (%s, (%s, %s))) (* %s *)" % (h.coq_bytes(o.encode()), str(e).lower(), str(x).lower(), sj, o) for o, e, x, sj in rows)
+    t += " ].\n"
     return t
